@@ -193,8 +193,10 @@ where
             nodes: extend_lpm(
                 self.table,
                 other.table,
-                self.table[self.loc.idx()].prefix_value(),
-                other.table[other.loc.idx()].prefix_value(),
+                // no match is inherited from above the two roots; `extend_lpm` adds each root's
+                // own value where it applies.
+                None,
+                None,
                 next_indices(
                     self.table,
                     other.table,
